@@ -256,7 +256,7 @@ def generate(rng, seed, run, tier, focus='C01', xmode=False):
                 ev = [kind, h]
                 del handles[h]
         elif kind in ('pk_ctx', 'pk_lat'):
-            ev = [kind, s, w, rng.choice([2, 3, 4, 5])]
+            ev = [kind, s, w, rng.choice([0, 1, 2, 3, 4, 5])]
         elif kind == 'pk_foreign':
             same = [i for i in live if i != s and shadow[i][0] == li]
             mode = rng.choice(['fresh', 'collide', 'collide', 'same'])
@@ -453,7 +453,7 @@ class Live:
                 names = names[::-1] + [names[0]]
             elif k % 3 == 2:
                 names = tuple(names)
-            got = call(ctx.intension, names)
+            got = call(ctx.intension, iter(names)) if k % 5 == 4 else call(ctx.intension, names)
             rec.check('C01.intension_eq_model', got.ok and got.value == want,
                       lambda: f'intension({names!r}) = {got.text()} model {want!r} rows={f.rows} labels={sl.objs, sl.props}')
             if k % 2 == 0:
@@ -469,7 +469,7 @@ class Live:
                 names = names[::-1] + [names[-1]]
             elif k % 3 == 2:
                 names = tuple(names)
-            got = call(ctx.extension, names)
+            got = call(ctx.extension, iter(names)) if k % 5 == 4 else call(ctx.extension, names)
             rec.check('C01.extension_eq_model', got.ok and got.value == want,
                       lambda: f'extension({names!r}) = {got.text()} model {want!r} rows={f.rows} labels={sl.objs, sl.props}')
             if k % 2 == 0:
@@ -900,7 +900,7 @@ class Live:
             rec.check('C05.neighbors_eq_upper_covers',
                       out.ok and len(out.value) == len(want) and set(out.value) == want,
                       lambda: f'neighbors({names!r}) = {out.text()} model {sorted(want)!r} rows={f.rows}')
-            rec.log(canon(sorted(out.value)) if out.ok else out.text())
+            rec.log(out.text())
             return (s,)
         if kind in ('pk_ctx', 'pk_lat', 'pk_foreign'):
             return self.step_pickle(kind, ev, s, sl)
@@ -1070,7 +1070,13 @@ class Live:
                 break
             H['got'].append(out.value)
             self.handle_progress(H, final=False)
-        rec.log(f'{len(H["got"])} done={H["done"]}')
+        if H['kind'] in ('up', 'down', 'upU', 'downU'):
+            rec.log(f'{len(H["got"])} done={H["done"]} ' + canon([c.extent for c in H['got'][-ev[2]:]]))
+        elif H['kind'] == 'lindig':
+            rec.log(f'{len(H["got"])} done={H["done"]} '
+                    + canon([(int(r[0]), int(r[1]), [int(u) for u in r[2]], [int(l) for l in r[3]]) for r in H['got'][-1:]]))
+        else:
+            rec.log(f'{len(H["got"])} done={H["done"]} ' + canon([(int(e), int(i)) for e, i in H['got'][-1:]]))
         return ()
 
     def handle_progress(self, H, final):
